@@ -32,7 +32,8 @@ ASSUMPTIONS = ["an abstract configuration is 'the same' in two syntaxes when eac
 # (2024.1100: a version that reads like a decimal number with a trailing zero - it must stay a string in every syntax)
 VERSIONS = [("1.2.3", "MAJOR.MINOR.PATCH"), ("v202003.1001-beta", "vYYYY0M.BUILD[-TAG]"), ("v201712.0033-beta", "{pycalver}"), ("2024.1100", "YYYY.BUILD")]
 TRI = (None, True, False)
-COMMIT_MSGS = [None, "bump {old_version} -> {new_version}", 'release "{new_version}" now', "progress 100% {new_version}"]
+# (the last one spans several lines: subject, blank line, body - TOML writes it with \n escapes, setup.cfg with continuation lines)
+COMMIT_MSGS = [None, "bump {old_version} -> {new_version}", 'release "{new_version}" now', "progress 100% {new_version}", "bump {new_version}\n\n[skip ci]\nReleased-by: bumpver"]
 TAG_MSGS = [None, "", "release {new_version}"]
 SCOPES = [None, "default", "global", "branch"]
 HOOKS = [None, "", "hook.sh", "missing.sh"]
@@ -88,9 +89,11 @@ def render(abstract, rendering):
         return name, before + text + after
     if rendering.endswith("+airy"):
         name, text = render(abstract, rendering[:-5])
-        out, prev_indented = [], False
+        out, prev_indented, in_patterns = [], False, False
         for line in text.split("\n"):
-            indented = line.startswith("    ")
+            if line.startswith("["):
+                in_patterns = "file_patterns]" in line
+            indented = line.startswith("    ") and in_patterns  # (continuation lines of a multi-line message are left alone)
             if indented and prev_indented:
                 out.append("")  # an empty line between two patterns of one entry
                 if name.endswith(".toml"):
@@ -107,7 +110,9 @@ def render(abstract, rendering):
 
     def s(v):
         if toml:
-            return '"' + v.replace("\\", "\\\\").replace('"', '\\"') + '"'
+            return '"' + v.replace("\\", "\\\\").replace('"', '\\"').replace("\n", "\\n") + '"'
+        if "\n" in v:
+            return v.replace("\n", "\n    ")  # continuation lines (quoting a multi-line value is not an INI convention)
         return ('"' + v + '"') if quoted else v
 
     def b(key, v):
@@ -211,7 +216,7 @@ def bounds(tier, seed):
 
 
 def space(tier, seed):
-    cm = COMMIT_MSGS if tier == "thorough" else [COMMIT_MSGS[0], COMMIT_MSGS[2], COMMIT_MSGS[3]]
+    cm = COMMIT_MSGS if tier == "thorough" else [COMMIT_MSGS[0], COMMIT_MSGS[2], COMMIT_MSGS[3], COMMIT_MSGS[4]]
     hk = HOOKS if tier == "thorough" else [HOOKS[0], HOOKS[2], HOOKS[3]]
     tm = TAG_MSGS
     sc = SCOPES if tier == "thorough" else [None, "branch", "global"]
@@ -230,13 +235,13 @@ def space(tier, seed):
 def explore(tier, seed):
     pts = list(space(tier, seed))
     if tier == "quick":
-        # the quick tier walks one fixed quarter of the product per seed (the thorough tier covers all of it)
+        # the quick tier walks one fixed sixth of the product per seed (the thorough tier covers all of it)
         main = [p for p in pts if p[8] is None]
         rest = [p for p in pts if p[8] is not None]
         # (sliced by a hash of the point: a stride would alias with the product's dimension sizes)
         from ..stats import h64
 
-        pts = [p for p in main if h64(p) % 4 == seed % 4] + rest
+        pts = [p for p in main if h64(p) % 6 == seed % 6] + rest
     chunks = [("cfg", part) for part in pool.split(pts, pool.NPROC * 4)]
     return pool.run_chunks(run_chunk, chunks)
 
